@@ -186,8 +186,8 @@ def install(stepclock=True):
                 setattr(module, name, _SimDatetimeModule)
             elif obj is _real_time:
                 setattr(module, name, _SimTimeModule)
-            elif obj in (_real_time.time, _real_time.monotonic, _real_time.perf_counter):
-                setattr(module, name, _sim_seconds)
+            elif any(obj is f for f in (_real_time.time, _real_time.monotonic, _real_time.perf_counter)):
+                setattr(module, name, _sim_seconds)      # (identity, not ==: module globals may be numpy arrays)
     if stepclock:
         from sim import stepclock as sc
         sc.install([dsw.spiderweb, dsw.graphized, dsw.operation, dsw.biofilter])
